@@ -419,11 +419,114 @@ func runInfl(ctx *workers.Ctx, tier string, lo, hi int) {
 	}
 }
 
+// ---------- family 5: well-formed items generated by the CBOR grammar to a bounded depth ----------
+//
+// The byte-string and token families reach only very short items. This family enumerates WELL-FORMED items
+// level by level from a small atom set: level 0 = atoms; level 1 = arrays (len 0..2), maps (len 0..1, and 2 over a
+// reduced set), tags over level 0; level 2 = arrays/maps/tags whose children come from level 0 and level 1 (one
+// composite child at a time). Every item goes into every target: a map keyed by a tagged item, an array inside a
+// map key, a tag inside a tag, ... are all shapes that only exist from 4 bytes upwards.
+
+var itemAtoms = [][]byte{
+	{0x00}, {0x17}, {0x18, 0x18}, {0x20}, {0x38, 0x63}, {0x40}, {0x41, 0x00}, {0x60}, {0x61, 0x61}, {0xf4}, {0xf5}, {0xf6}, {0xf7},
+	{0x1b, 0xff, 0xff, 0xff, 0xff, 0xff, 0xff, 0xff, 0xff}, {0x3b, 0xff, 0xff, 0xff, 0xff, 0xff, 0xff, 0xff, 0xff}, {0xf9, 0x3c, 0x00},
+}
+var itemTags = [][]byte{{0xc0}, {0xc1}, {0xd2}, {0xd8, 0x18}, {0xd8, 0x25}, {0xdb, 0xff, 0xff, 0xff, 0xff, 0xff, 0xff, 0xff, 0xff}}
+
+var itemsCache = map[string][][]byte{}
+
+func cat(parts ...[]byte) []byte {
+	var out []byte
+	for _, p := range parts {
+		out = append(out, p...)
+	}
+	return out
+}
+
+func itemLevel1() [][]byte {
+	var out [][]byte
+	out = append(out, []byte{0x80}, []byte{0xa0})
+	for _, a := range itemAtoms {
+		out = append(out, cat([]byte{0x81}, a))
+		for _, t := range itemTags {
+			out = append(out, cat(t, a))
+		}
+		for _, b := range itemAtoms {
+			out = append(out, cat([]byte{0x82}, a, b), cat([]byte{0xa1}, a, b))
+		}
+	}
+	// two-entry maps over a reduced key set (ordering, duplicates, mixed key kinds)
+	ks := [][]byte{{0x00}, {0x01}, {0x20}, {0x40}, {0x61, 0x61}, {0xf6}}
+	for _, k1 := range ks {
+		for _, k2 := range ks {
+			out = append(out, cat([]byte{0xa2}, k1, []byte{0x00}, k2, []byte{0x00}))
+		}
+	}
+	return out
+}
+
+func itemsAll(tier string) [][]byte {
+	if c, ok := itemsCache[tier]; ok {
+		return c
+	}
+	l0 := itemAtoms
+	l1 := itemLevel1()
+	out := append(append([][]byte{}, l0...), l1...)
+	small := [][]byte{{0x00}, {0x40}, {0x61, 0x61}, {0xf6}}
+	for _, c := range l1 {
+		out = append(out, cat([]byte{0x81}, c))
+		for _, t := range itemTags {
+			out = append(out, cat(t, c))
+		}
+		for _, a := range small {
+			out = append(out, cat([]byte{0x82}, a, c), cat([]byte{0x82}, c, a), cat([]byte{0xa1}, a, c), cat([]byte{0xa1}, c, a))
+		}
+		out = append(out, cat([]byte{0xa1}, c, c), cat([]byte{0xa2}, c, []byte{0x00}, c, []byte{0x00}))
+	}
+	if tier == "thorough" {
+		// level 3: one more wrapper around every level-2 item
+		l2 := out[len(l0)+len(l1):]
+		n := len(l2)
+		for i := 0; i < n; i++ {
+			c := l2[i]
+			out = append(out, cat([]byte{0x81}, c), cat([]byte{0xc0}, c), cat([]byte{0xa1}, []byte{0x00}, c), cat([]byte{0xa1}, c, []byte{0x00}), cat([]byte{0xd8, 0x18}, c))
+		}
+	}
+	itemsCache[tier] = out
+	return out
+}
+
+func itemsTotal(tier string) int { return len(itemsAll(tier)) }
+
+func runItems(ctx *workers.Ctx, tier string, lo, hi int) {
+	cs := itemsAll(tier)
+	for i := lo; i < hi; i++ {
+		ctx.Begin(i)
+		b := cs[i]
+		if n, wf := refcbor.WellFormedLen(b); !wf || n != len(b) {
+			ctx.Violation("harness:items-generator", fmt.Sprintf("generated item %x is not well-formed for the reference parser", b), rep("items", b, allT[0]))
+			continue
+		}
+		for _, tg := range allT {
+			oneCase(ctx, "items", b, tg, false, false)
+		}
+		// the same item with one trailing byte (exactness) into the core targets
+		tb := append(append([]byte{}, b...), 0x00)
+		for _, tg := range coreT {
+			oneCase(ctx, "items+trailing", tb, tg, false, false)
+		}
+		if i%4001 == 0 {
+			ctx.Sample(map[string]any{"family": "items", "input_hex": hex.EncodeToString(b), "targets": len(allT)})
+		}
+	}
+}
+
 var families = []workers.Family{
 	{Name: "bytes", Total: bytesTotal, Run: runBytes},
 	{Name: "tokens", Total: tokensTotal, Run: runTokens},
 	{Name: "deep", Total: deepTotal, Run: runDeep},
 	{Name: "inflate", Total: inflTotal, Run: runInfl},
+	{Name: "items", Total: itemsTotal, Run: runItems},
 }
 
 func main() {
@@ -434,7 +537,7 @@ func main() {
 		replay(r)
 		return
 	}
-	r.Rule(fmt.Sprintf("exhaustive enumeration on the real decoder: (bytes) every byte string of length <= %d x every catalogue target; (tokens) every string of <= %d tokens over a %d-token adversarial CBOR head alphabet; (deep) nesting/claim families to 64 KiB; (inflate) every length head of library-produced messages replaced by 99999/100000/2^32/2^63. Oracles: no panic, exact consumption of well-formed items (vs independent reference parser), no success with trailing bytes, allocation <= %d + %d*len (exact TotalAlloc), declared length >= limit rejected with <= %d bytes allocated. A case is an (input,target) pair; distinct = distinct (outcome class,target) pairs observed.",
+	r.Rule(fmt.Sprintf("exhaustive enumeration on the real decoder: (bytes) every byte string of length <= %d x every catalogue target; (tokens) every string of <= %d tokens over a %d-token adversarial CBOR head alphabet; (deep) nesting/claim families to 64 KiB; (inflate) every length head of library-produced messages replaced by 99999/100000/2^32/2^63; (items) every well-formed item the CBOR grammar generates from 16 atoms and 6 tags to nesting level 2 (thorough 3), alone and with a trailing byte, x every target. Oracles: no panic, exact consumption of well-formed items (vs independent reference parser), no success with trailing bytes, allocation <= %d + %d*len (exact TotalAlloc), declared length >= limit rejected with <= %d bytes allocated. A case is an (input,target) pair; distinct = distinct (outcome class,target) pairs observed.",
 		map[bool]int{true: 2, false: 3}[r.Quick()], tokenDepth(r.Tier), len(alphabet(r.Tier)), allocA0, allocK, limitA))
 	deadline := time.Now().Add(25 * time.Minute)
 	if r.Quick() {
